@@ -61,10 +61,20 @@ class _Dead:
         self.stderr = why
 
 
+def _limit_memory():
+    # a defect of the code under test that allocates without bound must end the harness process (allocation failure)
+    # and not the machine: 24 GiB of address space per harness process
+    import resource
+    try:
+        resource.setrlimit(resource.RLIMIT_AS, (24 << 30, 24 << 30))
+    except (ValueError, OSError):
+        pass
+
+
 def harness(args, timeout=3600, check=True, stdin=None):
     try:
         p = subprocess.run([BIN] + [str(a) for a in args], stdout=subprocess.PIPE, stderr=subprocess.PIPE,
-                           text=True, timeout=timeout, input=stdin)
+                           text=True, timeout=timeout, input=stdin, preexec_fn=_limit_memory)
     except subprocess.TimeoutExpired:
         if check:
             raise ToolError('harness %s did not finish within %ds' % (args[0], timeout))
